@@ -52,3 +52,49 @@ Theorem C07_violation_keeps_root : forall st, root_at_bottom st -> forall d ic,
     d' - d = Z.of_nat (List.length st - List.length st') - (if ic then (if (List.length st' <? List.length st)%nat then 1 else 0) else 0).
 Proof. exact hv_loop_root. Qed.
 Print Assumptions C07_violation_keeps_root.
+
+(* "A schema violation discards exactly the offending top-level object and decoding of the following
+   objects is unaffected": the receiver's depth bookkeeping (discardCount + live unslicers + pending
+   index phase) follows the OPEN/CLOSE nesting of the token stream exactly through every violation,
+   absorbed or propagated, at any depth ... *)
+Theorem C07_depth_exact : forall ts c c' es, wfc c -> apply_all c ts = Ok' c' es ->
+  wfc c' /\ rootmode c' = rootmode c /\ vocab c' = vocab c /\ open_depth c' = open_depth c + delta_sum ts.
+Proof. exact apply_all_depth. Qed.
+Print Assumptions C07_depth_exact.
+
+(* ... hence after ANY balanced token sequence that did not end the connection the receiver is back at
+   top level: nothing is being discarded, only the root unslicer is on the stack, no index phase is open *)
+Theorem C07_resync : forall c ts c' es, at_top c -> wfc c -> delta_sum ts = 0 -> apply_all c ts = Ok' c' es -> at_top c'.
+Proof. exact resync. Qed.
+Print Assumptions C07_resync.
+
+(* the token-level statements above are about the byte-level receiver: a complete token in the buffer is
+   processed by exactly tok_apply *)
+Theorem C07_bytes_to_tokens : forall c b ds ty rest,
+  scan_header 64 [] b = HOk ds ty rest -> ty <> tok_ERROR ->
+  (has_body ty = true -> blen ty (le128 ds) <= lenZ rest) ->
+  let n := if has_body ty then blen ty (le128 ds) else 0 in
+  tok_step bctx event begin_body finish_body step_nobody (fatal 0) (fatal 0) (fun _ => [ELose]) c b =
+  match tok_apply c ty (le128 ds) (firstn (Z.to_nat n) rest) with
+  | Ok' c' es => TCont bctx event c' es (skipn (Z.to_nat n) rest)
+  | Fatal' es => TDead bctx event es
+  end.
+Proof. exact tok_step_complete. Qed.
+Print Assumptions C07_bytes_to_tokens.
+
+(* a PING anywhere is answered by exactly one PONG carrying the same number and changes nothing else *)
+Theorem C07_ping_transparent : forall c n, exists c', tok_apply c tok_PING n [] = Ok' c' [EPong n] \/
+                                                    (exists es, tok_apply c tok_PING n [] = Fatal' es).
+Proof. exact ping_transparent. Qed.
+Print Assumptions C07_ping_transparent.
+
+(* non-vacuity: a top-level context exists, is well formed, and a balanced object with a violation inside resynchronises *)
+Example C07_resync_example :
+  let c := ctx0 0 [] in
+  at_top c /\ wfc c /\
+  exists c' es, apply_all c [(tok_OPEN, 0, []); (tok_STRING, 2, [67; 48]); (tok_INT, 5, []); (tok_INT, 6, []); (tok_CLOSE, 0, [])]
+                = Ok' c' es /\ In EViolation es /\ at_top c'.
+Proof.
+  split; [repeat split|]. split; [apply ctx0_wf|].
+  eexists. eexists. split; [vm_compute; reflexivity|]. split; [cbn; auto 10|repeat split].
+Qed.
